@@ -32,13 +32,14 @@ Example tie_merge_errchan_model :
   | _, _ => false
   end = true.
 Proof. vm_compute; reflexivity. Qed.
-(* the worker touches exactly the receiver fields the interleaving model accounts for:
+(* the worker touches receiver fields of exactly the TYPES the interleaving model accounts for
+   (types, not names: renaming a field is not a change):
    the two lock-protected accumulators, the input channel, the (thread-safe, content-addressed)
    object store, the error channel, the wait group, the mutex, the read-only table header,
    the logger and the (mutex-protected, see fix 7fd...) progress bar.  A new field reachable from
    every worker is shared state the model knows nothing about. *)
 Example tie_worker_fields :
-  pool_worker_fields = ["asyncBlocks"; "blocks"; "db"; "errChan"; "logger"; "mutex"; "pt"; "rowsCount"; "tbl"; "wg"].
+  pool_worker_fields = ["*objects.Table"; "<-chan *sorter.Block"; "[]asyncBlock"; "chan error"; "logr.Logger"; "objects.Store"; "pbar.Bar"; "sync.Mutex"; "sync.WaitGroup"; "uint32"].
 Proof. vm_compute; reflexivity. Qed.
 (* the progress tracker delivers ticks with a send that also listens to done *)
 Example tie_progress_tick : progress_ok progress_tick_send = true.
